@@ -214,6 +214,12 @@ theorem keyExchange_length (D : DhOps) (L : DhLaws D) {a b : Key} {z : Bytes} {c
 
 /-! ### derivations -/
 
+theorem res_bind_congr {α β} {r : Res α} {f g : α → Res β} (h : ∀ a, f a = g a) : (r >>= f) = (r >>= g) := by
+  cases r with
+  | ok a => exact h a
+  | err e => rfl
+  | panic => rfl
+
 theorem takeKey_ok {d : Bytes} {n : Nat} (h : n ≤ d.length) : takeKey d n = .ok (d.take n) := by
   unfold takeKey; rw [if_neg (by omega)]
 
@@ -227,9 +233,7 @@ theorem deriveEsBytes_eq (D : DhOps) (hash : Bytes → Bytes) (hlen : ∀ x, (ha
   split
   · rfl
   · rename_i hn
-    congr 1
-    funext z
-    exact takeKey_ok (by rw [hlen]; omega)
+    exact res_bind_congr fun z => takeKey_ok (by rw [hlen]; omega)
 
 theorem derive1puBytes_eq (D : DhOps) (hash : Bytes → Bytes) (hlen : ∀ x, (hash x).length = 32) (eph snd rcp : Key)
     (alg apu apv tag : Bytes) (receive : Bool) (n : Nat) :
@@ -241,20 +245,18 @@ theorem derive1puBytes_eq (D : DhOps) (hash : Bytes → Bytes) (hlen : ∀ x, (h
           if tag.length ≤ 124 then .ok ((hash (puInput ze zs alg apu apv (be32 (n * 8) ++ tagPart tag))).take n)
           else .err .exceededBuffer := by
   unfold derive1puBytes
-  split
-  · rfl
-  · rename_i hn
-    split
-    · rfl
-    · congr 1
-      funext ze
-      congr 1
-      funext zs
+  by_cases hn : n > 32
+  · rw [if_pos hn, if_pos hn]
+  · rw [if_neg hn, if_neg hn]
+    by_cases ht : tag.length > 128
+    · rw [if_pos ht, if_pos ht]
+    · rw [if_neg ht, if_neg ht]
+      refine res_bind_congr fun ze => res_bind_congr fun zs => ?_
       rw [pubInfo1pu_eq]
-      split
-      · simp only [Res.ok_bind]
+      by_cases hl : tag.length ≤ 124
+      · simp only [if_pos hl, Res.ok_bind]
         exact takeKey_ok (by rw [hlen]; omega)
-      · rfl
+      · simp only [if_neg hl, Res.err_bind]
 
 theorem res_bind_ne_panic {α β} {r : Res α} {f : α → Res β} (hr : r ≠ .panic) (hf : ∀ a, f a ≠ .panic) : (r >>= f) ≠ .panic := by
   cases r with
@@ -285,5 +287,251 @@ theorem derive1puBytes_ne_panic (D : DhOps) (hash : Bytes → Bytes) (hlen : ∀
         apply res_bind_ne_panic
         · exact exchange_ne_panic _ _ _ _
         · intro zs; split <;> simp
+
+/-! ### both sides agree -/
+
+theorem exchange_full_public (D : DhOps) (c : Curve) (a r : Bytes) :
+    exchange D (Key.full D c a) (Key.public D c r) false = .ok (D.dh c a (D.pub c r)) := by
+  simp [exchange, keyExchange, Key.full, Key.public]
+
+theorem exchange_public_full (D : DhOps) (c : Curve) (a r : Bytes) :
+    exchange D (Key.public D c a) (Key.full D c r) true = .ok (D.dh c r (D.pub c a)) := by
+  simp [exchange, keyExchange, Key.full, Key.public]
+
+theorem exchange_agree (D : DhOps) (L : DhLaws D) (c : Curve) (a r : Bytes) (ha : L.valid c a) (hr : L.valid c r) :
+    exchange D (Key.full D c a) (Key.public D c r) false = exchange D (Key.public D c a) (Key.full D c r) true := by
+  rw [exchange_full_public, exchange_public_full, L.dh_comm c a r ha hr]
+
+theorem es_agree (D : DhOps) (L : DhLaws D) (hash : Bytes → Bytes) (t : Target) (c : Curve) (e r : Bytes)
+    (he : L.valid c e) (hr : L.valid c r) (alg apu apv : Bytes) :
+    deriveKeyEcdhEs D hash t (Key.full D c e) (Key.public D c r) alg apu apv false =
+      deriveKeyEcdhEs D hash t (Key.public D c e) (Key.full D c r) alg apu apv true := by
+  unfold deriveKeyEcdhEs fromKeyDerivation
+  cases t.keyLen with
+  | none => rfl
+  | some n =>
+    show deriveEsBytes _ _ _ _ _ _ _ _ _ = deriveEsBytes _ _ _ _ _ _ _ _ _
+    unfold deriveEsBytes
+    rw [exchange_agree D L c e r he hr]
+
+theorem pu_agree (D : DhOps) (L : DhLaws D) (hash : Bytes → Bytes) (t : Target) (c : Curve) (e s r : Bytes)
+    (he : L.valid c e) (hs : L.valid c s) (hr : L.valid c r) (alg apu apv tag : Bytes) :
+    deriveKeyEcdh1pu D hash t (Key.full D c e) (Key.full D c s) (Key.public D c r) alg apu apv tag false =
+      deriveKeyEcdh1pu D hash t (Key.public D c e) (Key.public D c s) (Key.full D c r) alg apu apv tag true := by
+  unfold deriveKeyEcdh1pu fromKeyDerivation
+  cases t.keyLen with
+  | none => rfl
+  | some n =>
+    show derive1puBytes _ _ _ _ _ _ _ _ _ _ _ = derive1puBytes _ _ _ _ _ _ _ _ _ _ _
+    unfold derive1puBytes
+    rw [exchange_agree D L c e r he hr, exchange_agree D L c s r hs hr]
+
+/-! ### the hashed string is the standards' OtherInfo layout -/
+
+theorem esBytes_matches (D : DhOps) (hash : Bytes → Bytes) (hlen : ∀ x, (hash x).length = 32) (eph rcp : Key)
+    (alg apu apv : Bytes) (receive : Bool) (n : Nat) (hn : n ≤ 32) (z : Bytes) (hz : exchange D eph rcp receive = .ok z) :
+    deriveEsBytes D hash eph rcp alg apu apv receive n = .ok (Spec.esKey hash z alg apu apv n) := by
+  rw [deriveEsBytes_eq D hash hlen, if_neg (by omega), hz]
+  simp only [Res.ok_bind]
+  rw [esInput_eq]
+  simp [Spec.esKey, Spec.round, Spec.esOtherInfo, Spec.otherInfo, Spec.datalenData, lp, Nat.mul_comm, List.append_assoc]
+
+theorem puBytes_matches (D : DhOps) (hash : Bytes → Bytes) (hlen : ∀ x, (hash x).length = 32) (eph snd rcp : Key)
+    (alg apu apv tag : Bytes) (receive : Bool) (n : Nat) (hn : n ≤ 32) (ht : tag.length ≤ 124) (ze zs : Bytes)
+    (hze : exchange D eph rcp receive = .ok ze) (hzs : exchange D snd rcp receive = .ok zs) :
+    derive1puBytes D hash eph snd rcp alg apu apv tag receive n = .ok (Spec.puKey hash ze zs alg apu apv tag n) := by
+  rw [derive1puBytes_eq D hash hlen, if_neg (by omega), if_neg (by omega), hze, hzs]
+  simp only [Res.ok_bind]
+  rw [if_pos ht, puInput_eq]
+  simp [Spec.puKey, Spec.round, Spec.puOtherInfo, Spec.otherInfo, Spec.datalenData, tagPart, lp, Nat.mul_comm, List.append_assoc]
+
+/-- the tag lengths the explicit guard lets through but the 132-byte buffer cannot hold -/
+theorem puBytes_tag_125_128 (D : DhOps) (hash : Bytes → Bytes) (hlen : ∀ x, (hash x).length = 32) (eph snd rcp : Key)
+    (alg apu apv tag : Bytes) (receive : Bool) (n : Nat) (hn : n ≤ 32) (ht : 124 < tag.length) (ht' : tag.length ≤ 128)
+    (ze zs : Bytes) (hze : exchange D eph rcp receive = .ok ze) (hzs : exchange D snd rcp receive = .ok zs) :
+    derive1puBytes D hash eph snd rcp alg apu apv tag receive n = .err .exceededBuffer := by
+  rw [derive1puBytes_eq D hash hlen, if_neg (by omega), if_neg (by omega), hze, hzs]
+  simp only [Res.ok_bind]
+  rw [if_neg (by omega)]
+
+theorem es_len_guard (D : DhOps) (hash : Bytes → Bytes) (eph rcp : Key) (alg apu apv : Bytes) (receive : Bool) (n : Nat)
+    (hn : n > 32) : deriveEsBytes D hash eph rcp alg apu apv receive n = .err .unsupported := by
+  unfold deriveEsBytes; rw [if_pos hn]
+
+theorem pu_len_guard (D : DhOps) (hash : Bytes → Bytes) (eph snd rcp : Key) (alg apu apv tag : Bytes) (receive : Bool) (n : Nat)
+    (hn : n > 32) : derive1puBytes D hash eph snd rcp alg apu apv tag receive n = .err .unsupported := by
+  unfold derive1puBytes; rw [if_pos hn]
+
+theorem pu_tag_guard (D : DhOps) (hash : Bytes → Bytes) (eph snd rcp : Key) (alg apu apv tag : Bytes) (receive : Bool) (n : Nat)
+    (ht : tag.length > 128) : derive1puBytes D hash eph snd rcp alg apu apv tag receive n = .err .unsupported := by
+  unfold derive1puBytes
+  by_cases hn : n > 32
+  · rw [if_pos hn]
+  · rw [if_neg hn, if_pos ht]
+
+/-! ### toy instances (non-vacuity) -/
+
+def pad32 (x : Bytes) : Bytes := (x ++ List.replicate 32 0).take 32
+
+theorem pad32_length (x : Bytes) : (pad32 x).length = 32 := by simp [pad32]
+
+/-- public key = secret key, shared secret = XOR of the two (padded to 32 bytes) -/
+def toyDh : DhOps where
+  pub _ a := a
+  dh _ a p := List.zipWith (· ^^^ ·) (pad32 a) (pad32 p)
+
+def toyDhLaws : DhLaws toyDh where
+  valid _ _ := True
+  zlen _ := 32
+  dh_len _ a p := by simp [toyDh, pad32_length]
+  dh_comm _ a b _ _ := by
+    simp only [toyDh]
+    rw [List.zipWith_comm]
+    congr 1
+    funext x y
+    exact UInt8.xor_comm y x
+
+def toyHash (x : Bytes) : Bytes := pad32 x
+
+/-- "cipher" = identity, tag = sixteen zero bytes, checked on opening -/
+def toyBox : BoxOps where
+  pub s := pad32 s
+  beforenm _ _ := []
+  sealBox _ _ m := (m, List.replicate 16 0)
+  openBox _ _ c t := if t = List.replicate 16 0 then some c else none
+  nonceHash _ := List.replicate 24 0
+
+theorem toyBoxLaws : BoxLaws toyBox where
+  pub_len s := pad32_length s
+  ct_len _ _ _ := rfl
+  tag_len _ _ _ := by simp [toyBox]
+  open_seal _ _ _ := by simp [toyBox]
+  beforenm_comm _ _ := rfl
+  nonce_len _ := by simp [toyBox]
+
+theorem toyBoxIdeal : BoxIdeal toyBox where
+  auth k n c t m h := by
+    simp only [toyBox] at h ⊢
+    split at h
+    · rename_i ht; injection h with h; subst h; rw [ht]
+    · cases h
+
+/-! ### crypto_box -/
+
+/-- an X25519 key pair / its public half over the box operations -/
+def xfull (B : BoxOps) (sk : Bytes) : Key := ⟨.dh .x25519, B.pub sk, some sk⟩
+def xpub (B : BoxOps) (sk : Bytes) : Key := ⟨.dh .x25519, B.pub sk, none⟩
+
+theorem cryptoBox_eq (B : BoxOps) (rp ss : Key) (sk : Bytes) (hs : ss.secret = some sk) (m nonce : Bytes)
+    (hn : nonce.length = 24) :
+    cryptoBox B rp ss m nonce =
+      .ok ((B.sealBox (B.beforenm sk rp.pub) nonce m).2 ++ (B.sealBox (B.beforenm sk rp.pub) nonce m).1) := by
+  simp [cryptoBox, secretKeyFrom, hs, nonceFrom, hn, CBOX_NONCE_LENGTH, Bind.bind, Res.bind]
+
+theorem cryptoBoxOpen_eq (B : BoxOps) (rs sp : Key) (sk : Bytes) (hs : rs.secret = some sk) (b nonce : Bytes)
+    (hn : nonce.length = 24) (hb : 16 ≤ b.length) :
+    cryptoBoxOpen B rs sp b nonce =
+      match B.openBox (B.beforenm sk sp.pub) nonce (b.drop 16) (b.take 16) with
+      | none => .err .encryption
+      | some m => .ok m := by
+  simp only [cryptoBoxOpen, secretKeyFrom, hs, nonceFrom, hn, CBOX_NONCE_LENGTH, CBOX_TAG_LENGTH, Bind.bind, Res.bind, if_true]
+  rw [if_neg (by omega), if_neg (by omega)]
+
+theorem cryptoBoxOpen_ne_panic (B : BoxOps) (rs sp : Key) (b nonce : Bytes) : cryptoBoxOpen B rs sp b nonce ≠ .panic := by
+  unfold cryptoBoxOpen secretKeyFrom nonceFrom
+  cases rs.secret with
+  | none => simp [Bind.bind, Res.bind]
+  | some sk =>
+    by_cases hn : nonce.length = CBOX_NONCE_LENGTH
+    · simp only [hn, if_true, Bind.bind, Res.bind]
+      by_cases hb : b.length < CBOX_TAG_LENGTH
+      · simp [hb]
+      · rw [if_neg hb, if_neg (by omega)]
+        split <;> simp
+    · simp [hn, Bind.bind, Res.bind]
+
+theorem cryptoBoxOpen_short (B : BoxOps) (rs sp : Key) (b nonce : Bytes) (hb : b.length < 16) :
+    ∃ e, cryptoBoxOpen B rs sp b nonce = .err e := by
+  unfold cryptoBoxOpen secretKeyFrom nonceFrom
+  cases rs.secret with
+  | none => exact ⟨_, rfl⟩
+  | some sk =>
+    by_cases hn : nonce.length = CBOX_NONCE_LENGTH
+    · refine ⟨.encryption, ?_⟩
+      simp only [hn, if_true, Bind.bind, Res.bind]
+      rw [if_pos (by simpa [CBOX_TAG_LENGTH] using hb)]
+    · refine ⟨.invalidNonce, ?_⟩
+      simp [hn, Bind.bind, Res.bind]
+
+theorem box_roundtrip (B : BoxOps) (L : BoxLaws B) (r s m nonce : Bytes) (hn : nonce.length = 24) :
+    ∃ b, envCryptoBox B (xpub B r) (xfull B s) m nonce = .ok b ∧ b.length = m.length + 16 ∧
+      b = (B.sealBox (B.beforenm s (B.pub r)) nonce m).2 ++ (B.sealBox (B.beforenm s (B.pub r)) nonce m).1 ∧
+      envCryptoBoxOpen B (xfull B r) (xpub B s) b nonce = .ok m := by
+  refine ⟨_, ?_, ?_, rfl, ?_⟩
+  · simp only [envCryptoBox, castX25519, xpub, xfull, if_true, Res.ok_bind]
+    exact cryptoBox_eq B _ _ s rfl m nonce hn
+  · simp [L.tag_len, L.ct_len]; omega
+  · simp only [envCryptoBoxOpen, castX25519, xpub, xfull, if_true, Res.ok_bind]
+    rw [cryptoBoxOpen_eq B _ _ r rfl _ nonce hn (by simp [L.tag_len])]
+    have ht := L.tag_len (B.beforenm s (B.pub r)) nonce m
+    rw [List.drop_left' ht, List.take_left' ht, L.beforenm_comm r s, L.open_seal]
+
+theorem box_open_only_sealed (B : BoxOps) (I : BoxIdeal B) (rs sp : Key) (sk : Bytes) (hs : rs.secret = some sk)
+    (b nonce m : Bytes) (h : cryptoBoxOpen B rs sp b nonce = .ok m) :
+    16 ≤ b.length ∧ nonce.length = 24 ∧ B.sealBox (B.beforenm sk sp.pub) nonce m = (b.drop 16, b.take 16) := by
+  by_cases hn : nonce.length = 24
+  · by_cases hb : 16 ≤ b.length
+    · rw [cryptoBoxOpen_eq B rs sp sk hs b nonce hn hb] at h
+      refine ⟨hb, hn, ?_⟩
+      split at h
+      · cases h
+      · rename_i m' hm
+        injection h with h; subst h
+        exact I.auth _ _ _ _ _ hm
+    · obtain ⟨e, he⟩ := cryptoBoxOpen_short B rs sp b nonce (by omega)
+      rw [he] at h; cases h
+  · simp [cryptoBoxOpen, secretKeyFrom, hs, nonceFrom, hn, CBOX_NONCE_LENGTH, Bind.bind, Res.bind] at h
+
+/-! ### sealed boxes -/
+
+theorem cryptoBoxSealOpen_ne_panic (B : BoxOps) (rs : Key) (c : Bytes) : cryptoBoxSealOpen B rs c ≠ .panic := by
+  unfold cryptoBoxSealOpen
+  by_cases hc : c.length < CBOX_KEY_LENGTH + CBOX_TAG_LENGTH
+  · simp [hc]
+  · have : ¬ CBOX_KEY_LENGTH > c.length := by omega
+    simp only [hc, this, if_false]
+    split
+    · simp
+    · exact cryptoBoxOpen_ne_panic _ _ _ _ _
+
+theorem cryptoBoxSealOpen_short (B : BoxOps) (rs : Key) (c : Bytes) (hc : c.length < 48) :
+    cryptoBoxSealOpen B rs c = .err .encryption := by
+  unfold cryptoBoxSealOpen
+  rw [if_pos (by simpa [CBOX_KEY_LENGTH, CBOX_TAG_LENGTH] using hc)]
+
+theorem seal_roundtrip (B : BoxOps) (L : BoxLaws B) (e r m : Bytes) :
+    ∃ s, envCryptoBoxSeal B e (xpub B r) m = .ok s ∧ s.length = m.length + 48 ∧
+      s = B.pub e ++ ((B.sealBox (B.beforenm e (B.pub r)) (sealNonce B (B.pub e) (B.pub r)) m).2 ++
+                      (B.sealBox (B.beforenm e (B.pub r)) (sealNonce B (B.pub e) (B.pub r)) m).1) ∧
+      envCryptoBoxSealOpen B (xfull B r) s = .ok m := by
+  have hp := L.pub_len e
+  have hnl : (sealNonce B (B.pub e) (B.pub r)).length = 24 := L.nonce_len _
+  have ht := L.tag_len (B.beforenm e (B.pub r)) (sealNonce B (B.pub e) (B.pub r)) m
+  have hc := L.ct_len (B.beforenm e (B.pub r)) (sealNonce B (B.pub e) (B.pub r)) m
+  refine ⟨_, ?_, ?_, rfl, ?_⟩
+  · simp only [envCryptoBoxSeal, castX25519, xpub, if_true, Res.ok_bind, cryptoBoxSeal, CBOX_KEY_LENGTH]
+    rw [if_neg (by simp [hp])]
+    rw [List.drop_left' hp, List.take_left' hp]
+    rw [cryptoBox_eq B _ _ e rfl m _ hnl]
+    rfl
+  · simp [hp, ht, hc]; omega
+  · simp only [envCryptoBoxSealOpen, castX25519, xfull, if_true, Res.ok_bind, cryptoBoxSealOpen, CBOX_KEY_LENGTH, CBOX_TAG_LENGTH]
+    rw [if_neg (by simp [hp, ht, hc]), if_neg (by simp [hp, ht, hc])]
+    rw [List.take_left' hp, List.drop_left' hp]
+    simp only [hp, ne_eq, not_true_eq_false, if_false]
+    rw [cryptoBoxOpen_eq B _ _ r rfl _ _ hnl (by simp [ht])]
+    rw [List.drop_left' ht, List.take_left' ht]
+    show (match B.openBox (B.beforenm r (B.pub e)) _ _ _ with | none => _ | some m => _) = _
+    rw [L.beforenm_comm r e, L.open_seal]
 
 end Askar.Ecdh
